@@ -131,6 +131,8 @@ Definition stop_case :=
   (nat * option nat * nat * option (list (nat * nat)) * option nat * (bool * bool * option nat * option nat)
    * list bool * list sweep_rec * (nat * nat * bool))%type.
 
+Definition mk_stop_case (c : stop_case) : stop_case := c.     (* fixes the type of a literal *)
+
 (* the is_converged() call that only chooses the log message when sweeps > max_sweeps may leave one recorded value unused *)
 Definition check_stop_run (c : stop_case) : bool :=
   let '(nsc, mn, mx, chis, chi0, (mix, react, dis, amp), convs, recs, (fin_sweeps, impl_min, mixer_end)) := c in
